@@ -98,6 +98,54 @@ elif name == 'h2-cas-spinlock':               # audit H2: a correct lock that ne
     edit('syncx/semap/map.go', '\t"sync"\n', '\t"sync"\n\t"sync/atomic"\n')
     edit('syncx/semap/semaphore.go', 'mu *sync.Mutex', 'mu *spinLock')
     open(os.path.join(dst, 'syncx/semap/semaphore.go'), 'a').write('\nvar _ sync.Mutex\n')
+elif name == 'r-F1a-racy-xxhash':             # red team F1a: go.mod replace -> in-tree xxhash copy with a racy Sum64String
+    src = subprocess.check_output(['go','env','GOMODCACHE'], text=True).strip() + '/github.com/cespare/xxhash/v2@v2.2.0'
+    tp = os.path.join(dst, 'third_party/xxhash'); os.makedirs(tp, exist_ok=True)
+    subprocess.check_call(['rsync','-a','--chmod=u+w','--exclude','dynamic','--exclude','xxhsum','--exclude','*_test.go',src+'/',tp+'/'])
+    edit('third_party/xxhash/xxhash_unsafe.go', '''	b := *(*[]byte)(unsafe.Pointer(&sliceHeader{s, len(s)}))
+	return Sum64(b)
+}''', '''	strBuf = append(strBuf[:0], s...)
+	return Sum64(strBuf)
+}
+
+var strBuf []byte''')
+    open(os.path.join(dst,'go.mod'),'a').write('\nreplace github.com/cespare/xxhash/v2 => ./third_party/xxhash\n')
+elif name == 'r-D-delete-noop-above-4096':    # red team D
+    open(os.path.join(dst,'syncx/semap/wmap.go'),'a').write('\nfunc delete(m map[interface{}]*Weighted, key interface{}) {\n\tif len(m) > 4096 {\n\t\treturn\n\t}\n\tremap.Drop(m, key)\n}\n')
+    open(os.path.join(dst,'remap/remap.go'),'a').write('\n// Drop deletes k from m.\nfunc Drop[V any](m map[interface{}]V, k interface{}) { delete(m, k) }\n')
+elif name == 'r-A1-tobytes-sprintf':          # red team A1
+    edit('remap/remap.go', 'panic(fmt.Sprintf("unsupported.type.for.slot:%+v", reflect.TypeOf(i)))', 'return []byte(fmt.Sprintf("%v:%v", reflect.TypeOf(i), i))')
+elif name == 'r-A2-tobytes-floats':           # red team A2
+    edit('remap/remap.go', '''	case string:
+		return []byte(v)
+	case []byte:''', '''	case float64:
+		var buf [8]byte
+		binary.LittleEndian.PutUint64(buf[:], math.Float64bits(v))
+		return buf[:]
+	case string:
+		return []byte(v)
+	case []byte:''')
+elif name == 'r-H-hook-underreports':         # red team H
+    open(os.path.join(dst,'syncx/semap/map.go'),'a').write('\nfunc delete(m map[interface{}]*Weighted, key interface{}) {}\n')
+    edit('syncx/semap/verif_hooks.go', '''		return len(v.m)''', '''		n := 0
+		for _, x := range v.m {
+			if x.cur != 0 || x.waiters.Len() != 0 {
+				n++
+			}
+		}
+		return n''')
+    edit('syncx/semap/verif_hooks.go', '''			n += len(s.m)''', '''			for _, x := range s.m {
+				if x.cur != 0 || x.waiters.Len() != 0 {
+					n++
+				}
+			}''')
+    edit('syncx/semap/verif_hooks.go', '''	w, ok := s.m[key]
+	if !ok {
+		return 0, 0, false
+	}''', '''	w, ok := s.m[key]
+	if !ok || (w.cur == 0 && w.waiters.Len() == 0) {
+		return 0, 0, false
+	}''')
 elif name == 'n3-rename-local':               # audit H1: harmless rename, must not alarm
     edit('syncx/semap/semaphore.go', 'next := s.waiters.Front()', 'head := s.waiters.Front()')
     edit('syncx/semap/semaphore.go', 'if next == nil {', 'if head == nil {')
